@@ -66,6 +66,31 @@ func (s *Server) Dump(db string) map[string][]bson.D {
 	return out
 }
 
+// Reset drops all data and the command log (a fresh store).
+func (s *Server) Reset() {
+	s.mu.Lock()
+	defer s.mu.Unlock()
+	s.colls = map[string][]bson.D{}
+	s.Log = nil
+	s.n = 0
+	s.FailAt = 0
+}
+
+// SawAfter reports whether a command `name` on collection `coll` was logged after command number n.
+func (s *Server) SawAfter(n int, name, coll string) bool {
+	s.mu.Lock()
+	defer s.mu.Unlock()
+	for i := len(s.Log) - 1; i >= 0; i-- {
+		if s.Log[i].N <= n {
+			return false
+		}
+		if s.Log[i].Name == name && s.Log[i].Coll == coll {
+			return true
+		}
+	}
+	return false
+}
+
 func (s *Server) CmdCount() int { s.mu.Lock(); defer s.mu.Unlock(); return s.n }
 
 func get(d bson.D, k string) (interface{}, bool) {
